@@ -620,7 +620,12 @@ func (d *partialDoc) add(key string, val *lazyNode, options *ApplyOptions) error
 
 func (d *partialDoc) get(key string, options *ApplyOptions) (*lazyNode, error) {
 	if key == "" {
-		return d.self, nil
+		// Hand out a node of its own: the caller may parse and modify what
+		// it gets, and a shared self node could end up inside itself.
+		if d.self == nil {
+			return nil, nil
+		}
+		return newLazyNode(d.self.raw), nil
 	}
 
 	if d.obj == nil {
@@ -721,7 +726,11 @@ func (d *partialArray) add(key string, val *lazyNode, options *ApplyOptions) err
 
 func (d *partialArray) get(key string, options *ApplyOptions) (*lazyNode, error) {
 	if key == "" {
-		return d.self, nil
+		// See partialDoc.get.
+		if d.self == nil {
+			return nil, nil
+		}
+		return newLazyNode(d.self.raw), nil
 	}
 
 	idx, err := strconv.Atoi(key)
